@@ -75,7 +75,7 @@ pub fn c03_race<const C: usize, const R: usize, const STEPS: usize>(p: &mut Pool
 where
     Cap<C>: Store<C>,
 {
-    chk!(CREATE_FORM_KNOWN, "c03: the handler's NoSuchClient arm has a form the skeleton interpreter knows");
+    chk!(CREATE_FORM_KNOWN, "inconclusive: the handler's NoSuchClient arm has a form the skeleton interpreter does not know");
     let cid = p.u128();
     let other = p.u128();
     assume(cid != other);
